@@ -69,32 +69,50 @@ impl BufferedWriter for HtmlWriter {
     }
 }
 
+impl HtmlWriter {
+    /// Append `buf` to the output, escaping the HTML metacharacters `&`, `<`
+    /// and `>`. The text comes from user input (source lines and labels quoted
+    /// in diagnostics), so it must never be interpreted as markup. Escaping is
+    /// done byte-wise, which is safe for UTF-8 sequences split across writes.
+    fn write_escaped(&mut self, buf: &[u8]) -> std::io::Result<usize> {
+        for &byte in buf {
+            match byte {
+                b'&' => self.buffer.extend_from_slice(b"&amp;"),
+                b'<' => self.buffer.extend_from_slice(b"&lt;"),
+                b'>' => self.buffer.extend_from_slice(b"&gt;"),
+                _ => self.buffer.push(byte),
+            }
+        }
+        Ok(buf.len())
+    }
+}
+
 impl std::io::Write for HtmlWriter {
     fn write(&mut self, buf: &[u8]) -> std::io::Result<usize> {
         if let Some(color) = &self.color {
             if color.fg() == Some(&Color::Red) {
                 self.buffer
                     .write_all("<span class=\"numbat-diagnostic-red\">".as_bytes())?;
-                let size = self.buffer.write(buf)?;
+                let size = self.write_escaped(buf)?;
                 self.buffer.write_all("</span>".as_bytes())?;
                 Ok(size)
             } else if color.fg() == Some(&Color::Blue) {
                 self.buffer
                     .write_all("<span class=\"numbat-diagnostic-blue\">".as_bytes())?;
-                let size = self.buffer.write(buf)?;
+                let size = self.write_escaped(buf)?;
                 self.buffer.write_all("</span>".as_bytes())?;
                 Ok(size)
             } else if color.bold() {
                 self.buffer
                     .write_all("<span class=\"numbat-diagnostic-bold\">".as_bytes())?;
-                let size = self.buffer.write(buf)?;
+                let size = self.write_escaped(buf)?;
                 self.buffer.write_all("</span>".as_bytes())?;
                 Ok(size)
             } else {
-                self.buffer.write(buf)
+                self.write_escaped(buf)
             }
         } else {
-            self.buffer.write(buf)
+            self.write_escaped(buf)
         }
     }
 
